@@ -418,6 +418,43 @@ fn prop_shpk(s: &ShpkSpec, ctx: &Ctx) -> PResult {
     Ok(())
 }
 
+/// A package with more nodes than a 16-bit index can number (and aliases of the nodes beyond): node count, selector of node i
+/// = i * 2654435761 + 1.
+#[derive(Clone, Debug, serde::Serialize, serde::Deserialize)]
+pub struct LargePackage {
+    pub nodes: u32,
+}
+
+fn large_cases(_: &Ctx) -> Vec<LargePackage> {
+    vec![LargePackage { nodes: 66_000 }, LargePackage { nodes: 70_000 }]
+}
+
+fn prop_large(c: &LargePackage, ctx: &Ctx) -> PResult {
+    let sel = |i: u32| i.wrapping_mul(2_654_435_761).wrapping_add(1);
+    let nodes: Vec<NodeSpec> = (0..c.nodes).map(|i| NodeSpec { selector: sel(i), pass_indices: [(i % 251) as u8; 16], system_keys: vec![], scene_keys: vec![], material_keys: vec![], subview_keys: [i, !i], passes: vec![] }).collect();
+    let alias_targets = [65_535u32, 65_536, 65_537, c.nodes - 1, 0];
+    let aliases: Vec<(u32, u32)> = alias_targets.iter().enumerate().map(|(k, t)| (0xAAAA_0000 + k as u32 * 2, *t)).collect();
+    let s = ShpkSpec { version: 0x0D01, dx11: true, vertex: vec![], pixel: vec![], material_params: vec![], material_params_size: 0, defaults: None, scalars: vec![], samplers: vec![], textures: vec![], uavs: vec![], system_keys: vec![], scene_keys: vec![], material_keys: vec![], subview_defaults: (1, 2), nodes, aliases: aliases.clone(), trailing: 0, dedup_names: false };
+    let bytes = encode_shpk(&s);
+    let pk = match guard("ShaderPackage::from_existing", || ShaderPackage::from_existing(&bytes))? {
+        Some(p) => p,
+        None => return fail("package-rejected", format!("from_existing returned None for a package of {} nodes ({} bytes)", c.nodes, bytes.len())),
+    };
+    let mut wanted: Vec<(u32, u32)> = [0u32, 1, 255, 256, 4_450, 32_767, 32_768, 65_534, 65_535, 65_536, 65_537, 65_999, c.nodes - 1].iter().map(|i| (sel(*i), *i)).collect();
+    wanted.extend(aliases.iter().copied());
+    for (selector, node) in wanted {
+        let want = &s.nodes[node as usize];
+        let got = guard("find_node", || pk.find_node(selector).map(|n| (n.selector, n.subview_keys.to_vec(), n.pass_indices)))?;
+        ensure_eq!(got, Some((want.selector, want.subview_keys.to_vec(), want.pass_indices)), "find-node-large-package", "find_node({:#x}) should return node {} of {}", selector, node, c.nodes);
+    }
+    let got = guard("find_node", || pk.find_node(0).is_some())?;
+    ensure!(!got, "find-node-absent", "find_node(0) found a node in a package where nobody carries selector 0");
+    ctx.class("shpk:more-than-65536-nodes");
+    ctx.nontrivial(&bytes[..4096]);
+    ctx.nontrivial_hash(c.nodes as u64);
+    Ok(())
+}
+
 fn selector_strategy(_: &Ctx) -> BoxedStrategy<Vec<Vec<u32>>> {
     let k = prop_oneof![3 => any::<u32>(), 1 => prop::sample::select(vec![0u32, 1, u32::MAX, 0x8000_0000, 31, 961])];
     vec(vec(k, 0..20), 4).boxed()
@@ -451,6 +488,7 @@ pub fn property() -> Property {
         parts: vec![
             Box::new(Part { name: "materials", driver: Driver::Gen(mtrl_strategy, 120_000, 1_920_000), prop: prop_mtrl, exhaustive: false }),
             Box::new(Part { name: "shader-packages", driver: Driver::Gen(shpk_strategy, 120_000, 1_920_000), prop: prop_shpk, exhaustive: false }),
+            Box::new(Part { name: "large-packages", driver: Driver::Enum(large_cases), prop: prop_large, exhaustive: false }),
             Box::new(Part { name: "selectors", driver: Driver::Gen(selector_strategy, 400_000, 6_400_000), prop: prop_selector, exhaustive: false }),
         ],
     }
